@@ -17,8 +17,18 @@ def generate(rng, n, tier, stats):
         nd = rng.choice([1, 2, 3, 3, 4, 4, 4])
         a = rand_array(rng, stats=stats, ndim=nd, minlen=1, maxlen=3, attrs=rng.random() < 0.4, dtype=rng.choice(['f', 'i']))
         dims = a['dims']
-        fam = rng.choice(['flatten', 'flatten', 'roundtrip', 'reshape', 'reshape', 'reduce_vs_flatten', 'two_groups', 'collision'])
+        fam = rng.choice(['flatten', 'flatten', 'roundtrip', 'reshape', 'reshape', 'reduce_vs_flatten', 'two_groups', 'collision', 'argext'])
         stats['family'][fam] += 1
+        if fam == 'argext':
+            # argmax / argmin over a tuple of dimensions = arg-extremum over the flattened group: the label tuple lists the
+            # members in the order the dimensions were given
+            if nd < 2: continue
+            k = rng.randint(2, nd); idx = rng.sample(range(nd), k)
+            refs = [dims[i] if rng.random() < 0.7 else i for i in idx]
+            vals = list(range(len(a['flat']))); rng.shuffle(vals)      # distinct values: one extremum per fibre
+            a['flat'] = [float(v) for v in vals] if a['dtype'] == 'f' else vals
+            cases.append({'ins': [a], 'ops': [['argext_tuple', rng.random() < 0.5, refs]], 'tag': 'argext'})
+            continue
         if fam == 'collision':
             # the grouped axis (or a member put back by unflatten) would take the name another dimension has:
             # the constructor refuses (ValueError), it never returns an array with a repeated dimension name
@@ -71,6 +81,26 @@ def generate(rng, n, tier, stats):
             cases.append({'ins': [a], 'ops': [['reshape', target, rng.random() < 0.5]]})
     return cases
 
+def execute(c):
+    if c.get('tag') != 'argext':
+        ins = [mk_array(j) for j in c['ins']]
+        return run_impl(lambda: ops.run_ops(ins, c['ops']))
+    a = mk_array(c['ins'][0]); _, mx, refs = c['ops'][0]
+    try:
+        r = (a.argmax if mx else a.argmin)(axis=tuple(refs))
+        if hasattr(r, 'axes'):
+            return ('val', {'t': 'raw', 'dims': list(r.dims), 'labels': [[lab_json(x) for x in ax.values] for ax in r.axes],
+                            'cells': [lab_json(x) for x in r.values.ravel().tolist()]})
+        return ('val', {'t': 'raw', 'dims': [], 'labels': [], 'cells': [lab_json(r)]})
+    except Unsupported:
+        raise
+    except Exception as e:
+        return ('err', EXN.get(type(e).__name__, 'OtherError'))
+
+def coq_case(c, res):
+    if c.get('tag') == 'argext': raise Unsupported('arg-extremum over a tuple of dimensions is checked by the oracle only')
+    return ops.coq_case(c, res, STRICT_ERR)
+
 def expand(o):
     """observable array -> (list of plain dim names, dict labels->cell) with grouped axes decomposed"""
     names = []
@@ -91,6 +121,28 @@ def oracle(case, res):
     obs = arr_json(mk_array(a))
     adims = a['dims']; ac = cells(obs)
     o = opsl[0]
+    if case.get('tag') == 'argext':
+        _, mx, refs = o
+        if res[0] == 'err': return 'arg-extremum over the dimensions %r raised %s' % (refs, res[1])
+        r = res[1]
+        idx = [adims.index(x) if isinstance(x, str) else x for x in refs]
+        rest = [i for i in range(len(adims)) if i not in idx]
+        if r['dims'] != [adims[i] for i in rest]: return 'remaining dimensions %r, expected %r' % (r['dims'], [adims[i] for i in rest])
+        v = mk_array(a).values
+        want = []
+        for c in itertools.product(*[range(v.shape[i]) for i in rest]):
+            best = None
+            for g in itertools.product(*[range(v.shape[i]) for i in idx]):
+                full = [0] * v.ndim
+                for i, p in zip(rest, c): full[i] = p
+                for i, p in zip(idx, g): full[i] = p
+                x = v[tuple(full)]
+                if best is None or (x > best[0] if mx else x < best[0]): best = (x, g)
+            want.append([a['labels'][i][p] for i, p in zip(idx, best[1])])
+        got = [list(x) if isinstance(x, (list, tuple)) else [x] for x in r['cells']]
+        if len(got) != len(want) or any(not labs_eq(g, w) for g, w in zip(got, want)):
+            return 'label tuples %r do not locate the extremum over %r (expected %r)' % (got[:3], refs, want[:3])
+        return None
     if case.get('tag') == 'collision':
         if res[0] == 'err': return None if res[1] == 'ValueError' else 'name collision raised %s' % res[1]
         return 'an array with a repeated dimension name was returned: %r' % (obs_dims(res[1]['v']),)
@@ -169,4 +221,4 @@ def oracle(case, res):
     return None
 
 def nontrivial(case, res):
-    return res[0] == 'val' and len(case['ins'][0]['flat']) > 1
+    return res[0] == 'val' and len(case['ins'][0]['flat']) > 1 or case.get('tag') == 'collision'
